@@ -16,9 +16,9 @@ PROP = {
     ],
     'gaps': [
         'C09_multikey_partial covers the commands the proxy handles as multi-key (MGET, MSET, MSETNX, DEL/EXISTS '
-        'with >= 2 arguments, BLPOP/BRPOP/BZPOPMIN/BZPOPMAX/BRPOPLPUSH, EVAL). The full statement ("every multi-key '
-        'command whose keys hash to different slots is refused when active redirection is off") is false for the '
-        'code: proved negation C09_multikey_full_false (EVALSHA, F09a) and C09_unguarded_two_key (RENAME & co, F09b)',
+        'with >= 2 arguments, BLPOP/BRPOP/BZPOPMIN/BZPOPMAX/BRPOPLPUSH, EVAL, EVALSHA). The full statement ("every '
+        'multi-key command whose keys hash to different slots is refused when active redirection is off") is false for '
+        'the code: proved negation C09_multikey_full_false / C09_unguarded_two_key (RENAME & co, F09b known)',
         'blocking commands: only the first pass of the polling loop is modelled (backends that answer non-empty)',
         'UMFORWARD as an incoming command, CLUSTER NODES/SLOTS, INFO/AUTH/UMCTL/CONFIG/COMMAND are not modelled here',
     ],
@@ -37,11 +37,12 @@ CHECK = {
             'node listing the slot (exactly the lister when local ranges are disjoint), else MOVED <slot> to a peer listing '
             'it (forward / ERR_TOO_MANY_REDIRECTIONS under active redirection), else "slot not covered"; ERR_CLUSTER_NOT_FOUND '
             'iff nothing installed; CLUSTER KEYSLOT = slotOf; guarded multi-key commands with keys in different slots dispatch '
-            'nothing and reply an error (EVAL in both modes), accepted ones send every sub-command to one target. Checked every '
+            'nothing and reply an error (EVAL/EVALSHA in both modes), accepted ones send every sub-command to one target. Checked every '
             'run against the real code on >= 10^5 keys (all brace placements, binary, one per slot), raw SlotMapData layouts '
-            'and >= 150 proxy configurations x hand-built layouts x 13 command shapes. KNOWN-FINDING F09a/F09b: EVALSHA and '
-            'first-key-routed two-key commands (RENAME, RENAMENX, SMOVE, RPOPLPUSH; BRPOPLPUSH under active redirection) are '
-            'executed on the owner of the first key although the other key hashes elsewhere.',
+            'and >= 150 proxy configurations x hand-built layouts x 13 command shapes. F09a (EVALSHA bypassed the EVAL guard) was found by this check and is fixed in /repo 7ad1e99 (regression theorem '
+            'C09_evalsha_refused). KNOWN-FINDING F09b: first-key-routed two-key commands (RENAME, RENAMENX, SMOVE, RPOPLPUSH; '
+            'BRPOPLPUSH under active redirection) are executed on the owner of the first key although the other key hashes '
+            'elsewhere (documented caller obligation in docs/command_table.md).',
     'note': 'Trusted: Lean kernel; generated command tables; harness fakes; crc16 crate tied differentially only. '
             'Scope: no migration tasks (C02), no CLUSTER NODES/SLOTS (C14).',
 }
